@@ -33,6 +33,8 @@ CHECKS = {
              note='lane kernels replaced by their contracts (proved under C02); 8-bit variants under the documented <2^8 precondition', tech=AI + ': residue normal forms + representation typestate at call sites'),
  'C14': dict(cat='proof', text='every AVX512 dot/spmv/mmult kernel interpreted on two interleaved symbolic states: per-state matrix product normal forms and representation-typestate preconditions at every lane-kernel call site (the rule that exposed the add_avx512_b_c defect)',
              note='lane kernels replaced by their contracts (proved under C11)', tech=AI + ': residue normal forms + representation typestate at call sites'),
+ 'C15': dict(cat='proof', text='kernel mode on fromU64/fromS64/fromS32/toU64 (sign boxes, exact wrap, canonical outputs); predicates (equal, isZero, isOne, isNegone, operator==) explored over their residue tests; R-MPZ: the GMP calls behind fromString/fromScalar/toS64/toS32 interpreted on abstract big integers (symbol + interval + inherited residue; truncating remainder; get_ui/get_si/narrowing obligations) with all sign/comparison paths explored and compared with the specification on each path interval; round trips as corollaries',
+             note='GMP entry points trusted to behave as documented; string parsing and formatting not decided', tech='abstract interpretation: limb-split kernel domain for machine-integer conversions, sign/interval/residue domain for big-integer conversions, path exploration for predicates'),
  'C16': dict(cat='proof', text='all 156 batched/AVX2/AVX512 cubic-extension overloads (both build configurations) interpreted on symbolic operands, strides and index arrays against a specification derived from the signature alone; exact write set, reads inside designated cells, kernel preconditions',
              note='trusts the shape-code grammar (frozen table, one documented exception), kernel contracts, glv IR semantics', tech=AI + ' vs signature-derived oracle'),
  'C17': dict(cat='proof', text='all copy/add/sub/mul _batch/_avx/_avx512 overloads interpreted on symbolic operands, strides and index arrays against a signature-derived specification; exact write set and read footprint',
